@@ -497,7 +497,10 @@ func check(id, tier string) int {
 		exit = 1
 		fmt.Printf("violation: %s: %s\n  runs in this class: %d; minimised tape %d draws; first seen at run %d (seed %d)\n",
 			c, rf.Violation.Detail, agg.ClassCounts[c], len(rf.Tape), f.Index, f.Seed)
-		lines = append(lines, fmt.Sprintf("VIOLATION property=%s replay=%s", rf.Property, path))
+		// The line names the property whose check this is; a clause of
+		// another property checked on the way (e.g. a reply checked inside a
+		// reader run) is named in the class.
+		lines = append(lines, fmt.Sprintf("VIOLATION property=%s replay=%s", spec.ID, path))
 	}
 	wall := time.Since(start).Seconds()
 	if err := writeEvidence(spec, tier, base, agg, len(distinct), wall, nviol, classes); err != nil {
@@ -632,7 +635,7 @@ func replay(path string) int {
 		return 0
 	}
 	fmt.Printf("replay of %s: %s: %s (digest %x, recorded %x, same class: %v)\n", path, rr.Viol.Class(), rr.Viol.Detail, rr.Digest, rf.Digest, rr.Viol.Class() == rf.Class)
-	fmt.Printf("VIOLATION property=%s replay=%s\n", rr.Viol.Prop, path)
+	fmt.Printf("VIOLATION property=%s replay=%s\n", spec.ID, path)
 	return 1
 }
 
